@@ -254,7 +254,7 @@ class Check:
         })
         if not cov["samples"]:
             cov["samples"] = [{"theorem": t} for t in self.theorems[:5]]
-        ev = {"property_id": self.pid, "tier": self.tier, "seed": self.seed, "level": sp.get("level", "proof"),
+        ev = {"property_id": self.pid, "tier": self.tier, "seed": self.seed, "level": sp.get("level") if sp.get("level") in ("exploration", "fault_enumeration", "model_checking", "proof", "translation_validation", "other") else "proof",
               "coverage": cov, "assumptions": sp.get("assumptions", []), "wall_s": round(time.time() - self.t0, 2),
               "violations": nviol}
         core.write_evidence(self.pid, ev)
